@@ -52,6 +52,25 @@ def run(tier):
                        "representative path to its source state plus the event; plus seeded random histories "
                        "(ops on buffers up to 12x9, three nesting levels, surplus backing data); "
                        "a record is one history, an evaluation is one event")
+    # 1a. constructor sweep: wider dimensions / strides / backing lengths, depth one
+    cc = {"MaxW": 4, "MaxH": 3} if tier == "quick" else {"MaxW": 6, "MaxH": 5}
+    ccfg = vf.write_cfg(os.path.join(d, "MC_Buf2Ctor.cfg"), dict(cc, Export="TRUE"),
+                        invariants=["FitsIsWindowInside", "Sharp", "Total", "ExportInv"])
+    rc = vf.tlc("MC_Buf2Ctor", ccfg, workers=4, gc="parallel")
+    chk.add_mc("MC_Buf2Ctor", rc, cc)
+    ctor_cases = os.path.join(d, "ctor_cases.ndjson")
+    nc = 0
+    with open(ctor_cases, "w") as f:
+        for ln in rc.prints:
+            t = vf.parse_print(ln)
+            if t and t[0] == "REPLAY":
+                f.write(json.dumps({"k": "k%d" % nc, "calls": json.loads(t[1])}, separators=(",", ":")) + "\n")
+                nc += 1
+    if nc != rc.distinct:
+        raise vf.ToolError("constructor sweep: %d exports for %d states" % (nc, rc.distinct))
+    vf.log("[gen] %d constructor calls exported by TLC for replay" % nc)
+    chk.cov["spec_behaviours_replayed"] = n + nc
+    vf.exec_and_validate(chk, binpath, "buf2", "TV_Buf2", ctor_cases, jvms=4)
     # 1b. the implementation-shaped index arithmetic refines the window model (and the
     #     algorithms of the pinned tree do not: a negative control that the model bites)
     dim = 3 if tier == "quick" else 4
